@@ -35,6 +35,24 @@
 #define ALLOC_N CAP
 #define ENSURES(e) __CPROVER_ensures(e)
 #endif
+/* The postcondition of the multi-removal instances is proved in three parts (separate solver runs of the same
+ * contract): PART 1 = what the caller sees (num(), perm, keys, DATA), PART 2 = INV: key<->number bijection,
+ * PART 3 = INV: free list.  PART undefined = everything at once. */
+#if !defined(PART) || PART == 1
+#define ENSURES_1(e) ENSURES(e)
+#else
+#define ENSURES_1(e) __CPROVER_ensures(1)
+#endif
+#if !defined(PART) || PART == 2
+#define ENSURES_2(e) ENSURES(e)
+#else
+#define ENSURES_2(e) __CPROVER_ensures(1)
+#endif
+#if !defined(PART) || PART == 3
+#define ENSURES_3(e) ENSURES(e)
+#else
+#define ENSURES_3(e) __CPROVER_ensures(1)
+#endif
 
 int g_g, g_h, g_i, g_j, g_x, g_c0, g_n0, g_s0, g_last, v_kidx, v_dat, v_a, v_b;
 
@@ -288,13 +306,14 @@ __CPROVER_requires(g_n0 == NM && g_s0 == SZ)
 __CPROVER_requires(!ISNUM(g_h) || (v_kidx == KIDX(g_h) && v_dat == DAT(KIDX(g_h)) && v_a == perm[g_h]))
 __CPROVER_requires(!ISNUM(g_x) || v_b == perm[g_x])
 __CPROVER_assigns(__CPROVER_object_whole(item), __CPROVER_object_whole(key), __CPROVER_object_whole(perm), *thesize, *thenum, *firstfree)
-ENSURES(NM == cnt[g_n0] && SZ == g_s0 && S_OK)
-ENSURES(!(0 <= g_h && g_h < g_n0 && v_a < 0) || (perm[g_h] == v_a && INFO(v_kidx) < 0))
-ENSURES(!(0 <= g_h && g_h < g_n0 && v_a >= 0)
+ENSURES_1(NM == cnt[g_n0] && SZ == g_s0 && S_OK)
+ENSURES_1(!(0 <= g_h && g_h < g_n0 && v_a < 0) || (perm[g_h] == v_a && INFO(v_kidx) < 0))
+ENSURES_1(!(0 <= g_h && g_h < g_n0 && v_a >= 0)
         || (perm[g_h] == cnt[g_h] && 0 <= perm[g_h] && perm[g_h] < NM && perm[g_h] <= g_h
             && KIDX(perm[g_h]) == v_kidx && INFO(v_kidx) == perm[g_h] && DAT(v_kidx) == v_dat))
-ENSURES(!(0 <= g_h && g_h < g_x && g_x < g_n0 && v_a >= 0 && v_b >= 0) || perm[g_h] < perm[g_x])
-ENSURES(INV_GHOSTS2)
+ENSURES_1(!(0 <= g_h && g_h < g_x && g_x < g_n0 && v_a >= 0 && v_b >= 0) || perm[g_h] < perm[g_x])
+ENSURES_2(K_AT(g_g) && U_AT(g_i))
+ENSURES_3(R05_OK2 && R123_AT2(g_i) && R123_AT2(g_j) && R4_AT2(g_i, g_j))
 ;
 void h_removePerm(void)
 {
@@ -328,13 +347,14 @@ __CPROVER_requires(g_n0 == NM && g_s0 == SZ)
 __CPROVER_requires(!ISNUM(g_h) || (v_kidx == KIDX(g_h) && v_dat == DAT(KIDX(g_h)) && v_a == isrem[g_h]))
 __CPROVER_requires(!ISNUM(g_x) || v_b == isrem[g_x])
 __CPROVER_assigns(__CPROVER_object_whole(item), __CPROVER_object_whole(key), __CPROVER_object_whole(perm), *thesize, *thenum, *firstfree)
-ENSURES(NM == cnt[g_n0] && SZ == g_s0 && S_OK)
-ENSURES(!(0 <= g_h && g_h < g_n0 && v_a != 0) || (perm[g_h] == -1 && INFO(v_kidx) < 0))
-ENSURES(!(0 <= g_h && g_h < g_n0 && v_a == 0)
+ENSURES_1(NM == cnt[g_n0] && SZ == g_s0 && S_OK)
+ENSURES_1(!(0 <= g_h && g_h < g_n0 && v_a != 0) || (perm[g_h] == -1 && INFO(v_kidx) < 0))
+ENSURES_1(!(0 <= g_h && g_h < g_n0 && v_a == 0)
         || (perm[g_h] == cnt[g_h] && 0 <= perm[g_h] && perm[g_h] < NM && perm[g_h] <= g_h
             && KIDX(perm[g_h]) == v_kidx && INFO(v_kidx) == perm[g_h] && DAT(v_kidx) == v_dat))
-ENSURES(!(0 <= g_h && g_h < g_x && g_x < g_n0 && v_a == 0 && v_b == 0) || perm[g_h] < perm[g_x])
-ENSURES(INV_GHOSTS2)
+ENSURES_1(!(0 <= g_h && g_h < g_x && g_x < g_n0 && v_a == 0 && v_b == 0) || perm[g_h] < perm[g_x])
+ENSURES_2(K_AT(g_g) && U_AT(g_i))
+ENSURES_3(R05_OK2 && R123_AT2(g_i) && R123_AT2(g_j) && R4_AT2(g_i, g_j))
 ;
 void h_removeNums(void)
 {
